@@ -113,6 +113,15 @@ class Check:
         with open(os.path.join(EVID, f"{self.pid}.json"), "w") as f:
             json.dump(jsonable(ev), f, indent=1)
         n = len(self.violations)
+        if n > 10:
+            import re
+            cls = {}
+            for w, _p in self.violations:
+                k = re.sub(r"\d+", "N", w)[:200]
+                cls[k] = cls.get(k, 0) + 1
+            print(f"  ... {n} violations in {len(cls)} classes:")
+            for k, v in sorted(cls.items(), key=lambda kv: -kv[1])[:25]:
+                print(f"  {v:6d} x {k}")
         print(f"[{self.pid}] tier={self.tier} seed={self.seed} states={self.states} transitions={self.transitions} "
               f"evaluations={self.evaluations} distinct={len(self.distinct)} traces={self.traces_validated} "
               f"violations={n} wall={ev['wall_s']}s")
